@@ -149,6 +149,33 @@ def classify_crash(stderr):
     return kind, frame, ffile
 
 
+IDLE_S = 30   # a worker prints and flushes a line before and after every run (milliseconds apart): silence for this long is a hang
+
+
+def run_worker(cmd):
+    """Run one worker process; returns (returncode, stdout, stderr, hung). A worker that stops producing output is killed."""
+    import select
+    with tempfile.TemporaryFile(mode='w+b') as errf:
+        p = subprocess.Popen(cmd, stdout=subprocess.PIPE, stderr=errf)
+        fd = p.stdout.fileno()
+        chunks = []
+        hung = False
+        while True:
+            r, _, _ = select.select([fd], [], [], IDLE_S)
+            if not r:
+                hung = True
+                p.kill()
+                break
+            data = os.read(fd, 1 << 16)
+            if not data:
+                break
+            chunks.append(data)
+        p.wait()
+        errf.seek(0)
+        err = errf.read().decode(errors='replace')
+    return p.returncode, b''.join(chunks).decode(errors='replace'), err, hung
+
+
 def run_chunk(binary, profile, faults, base, count, outdir, deny, samples, mode='H', cpu=None):
     """Run seeds [base, base+count); restart after a death. Returns list of parsed events."""
     events = []
@@ -161,11 +188,11 @@ def run_chunk(binary, profile, faults, base, count, outdir, deny, samples, mode=
                 cmd = ['taskset', '-c', str(cpu)] + cmd
         else:
             cmd = [binary, 'run', '--profile', profile, '--seed-base', str(cur), '--count', str(end - cur), '--faults', str(faults), '--out', outdir, '--samples', str(samples)] + deny
-        p = subprocess.run(cmd, stdout=subprocess.PIPE, stderr=subprocess.PIPE, text=True, errors='replace')
+        rc, out_text, err_text, hung = run_worker(cmd)
         inflight = None
         term_op = ''
         done = set()
-        for line in p.stdout.splitlines():
+        for line in out_text.splitlines():
             if line.startswith('B '):
                 inflight = int(line.split()[1])
             elif line.startswith('R '):
@@ -195,32 +222,40 @@ def run_chunk(binary, profile, faults, base, count, outdir, deny, samples, mode=
                 events.append(('STATES', int(line.split()[1])))
             elif line.startswith('STATS '):
                 events.append(('STATS', json.loads(line[6:])))
-        if p.returncode == 3:   # stopped after a violation: carry on with the next seed
+        if rc == 3 and not hung:   # stopped after a violation: carry on with the next seed
             vseeds = [e[1] for e in events if e[0] == 'V']
             cur = (vseeds[-1] if vseeds else cur) + 1
             continue
-        if p.returncode in (0, 1):
+        if rc in (0, 1) and not hung:
             break
+        if hung:
+            if inflight is None:
+                events.append(('H', cur, 'worker stopped producing output outside a run'))
+                break
+            # the run never came back: a loop that does not end or a lock that is never released (C14; in Mode T also C12)
+            events.append(('C', inflight, 'hang', 'no output for %d s' % IDLE_S, 'hang', err_text[-2000:]))
+            break   # (the rest of this chunk is given up: every further hang would cost another IDLE_S)
         # died
         if inflight is None:
-            events.append(('H', cur, 'worker died (rc=%d) outside a run: %s' % (p.returncode, p.stderr[-2000:])))
+            events.append(('H', cur, 'worker died (rc=%d) outside a run: %s' % (rc, err_text[-2000:])))
             break
-        kind, frame, ffile = classify_crash(p.stderr)
+        kind, frame, ffile = classify_crash(err_text)
         if kind == 'harness':
-            events.append(('H', inflight, 'sanitizer error inside the harness at %s (%s), seed %d: %s' % (frame, ffile, inflight, p.stderr[-1500:])))
+            events.append(('H', inflight, 'sanitizer error inside the harness at %s (%s), seed %d: %s' % (frame, ffile, inflight, err_text[-1500:])))
             break
-        if p.returncode == 78 and kind == 'crash':
+        if rc == 78 and kind == 'crash':
             kind = 'terminate'; frame = 'during ' + term_op; ffile = 'terminate'
-        events.append(('C', inflight, kind, frame, ffile, p.stderr[-4000:]))
+        events.append(('C', inflight, kind, frame, ffile, err_text[-4000:]))
         cur = inflight + 1
     return events
 
 
-def replay(binary, path, timeout=60):
+def replay(binary, path, timeout=IDLE_S):
     try:
         p = subprocess.run([binary, 'replay', path], stdout=subprocess.PIPE, stderr=subprocess.PIPE, text=True, errors='replace', timeout=timeout)
     except subprocess.TimeoutExpired:
-        return {'rc': -1, 'kind': 'timeout'}
+        # one plan takes milliseconds: not coming back is the failure itself
+        return {'rc': -1, 'kind': 'crash', 'crash': ('hang', 'no output for %d s' % IDLE_S, 'hang'), 'stderr': '', 'props': '', 'oracle': '', 'text': '', 'hash': ''}
     out = {'rc': p.returncode, 'props': '', 'oracle': '', 'text': '', 'hash': '', 'kind': 'ok'}
     for line in p.stdout.splitlines():
         if line.startswith('V '):
@@ -408,6 +443,8 @@ CURRENT_PROP = ''
 
 def crash_props(kind, frame, ffile):
     props = ['C14']
+    if kind == 'hang' and CURRENT_PROP in ('C01', 'C12'):
+        props.append(CURRENT_PROP)   # a call (or, under threads, any operation) that never returns
     if CURRENT_PROP == 'C20':
         props.append('C20')   # everything the coroutine world executes is C20's business
     if kind == 'terminate':
